@@ -1166,6 +1166,60 @@ def check_anim_scene(spec):
     return None
 
 
+def gen_anim_long(rng):
+    """long paths with animation settings that force down-sampling of the path indices"""
+    n1, n2 = rng.randint(150, 400), rng.randint(101, 149)
+    a = gen_single(rng, rng.choice(["Cuboid", "Tetrahedron"]))
+    b = gen_single(rng, rng.choice(["Cuboid", "Cylinder"]))
+    for sp, n in ((a, n1), (b, n2)):
+        p0, p1 = (np.array([rng.uniform(-5, 5) for _ in range(3)]) for _ in range(2))
+        sp["pos"] = np.linspace(p0, p1, n).round(6).tolist()
+        rv = np.array([rng.uniform(-1, 1) for _ in range(3)])
+        sp["rotvec"] = (np.linspace(0, 1, n)[:, None] * rv * 2.5).round(6).tolist()
+    kw = rng.choice([{}, {"animation_maxframes": rng.randint(7, 60)},
+                     {"animation": rng.choice([1, 2, 3]), "animation_fps": rng.choice([5, 8, 13])},
+                     {"animation_time": 2, "animation_fps": 9, "animation_maxframes": 500}])
+    return {"kind": "anim-long", "cls": "Collection", "leaves": [a, b] if rng.random() < 0.5 else [a], "anim_kw": kw,
+            "pos": [0, 0, 0], "rotvec": [0, 0, 0]}
+
+
+def check_anim_long(spec):
+    """every animation frame announces a path index (frame name / title, 1-based): the objects must be drawn at
+    the pose they have at that index (their last one if their path is shorter), and the last index must be shown"""
+    objs = [build(sp) for sp in spec["leaves"]]
+    M = max(len(o._position) for o in objs)
+    kw = {"backend": "plotly", "return_fig": True, "units_length": "m", "style_magnetization_show": False,
+          "style_path_show": False, "animation": True, **DECOR_OFF, **spec["anim_kw"]}
+    fig = magpy.show(*objs, **kw)
+    locs = []
+    for sp in spec["leaves"]:
+        ref = {**sp, "pos": [0.0, 0.0, 0.0], "rotvec": [0.0, 0.0, 0.0]}
+        locs.append(vertex_cloud(to_metres(do_show([build(ref)], {"backend": "plotly", "return_fig": True,
+                                 "units_length": "m", "style_magnetization_show": False, **DECOR_OFF}))[0], "mesh3d"))
+    scale = max(np.abs(o._position).max() for o in objs) + 5.0
+    announced = []
+    for fr in fig.frames:
+        try:
+            k = int(fr.name) - 1
+        except (TypeError, ValueError):
+            return ("frames", f"animation frame name {fr.name!r} does not announce a path index")
+        ttl = fr.layout.title.text if fr.layout is not None and fr.layout.title is not None else None
+        if ttl and "path index:" in ttl and int(ttl.split("path index:")[1]) - 1 != k:
+            return ("frames", f"frame name {fr.name!r} and title {ttl!r} announce different path indices")
+        if not 0 <= k < M:
+            return ("frames", f"frame announces path index {k} for a longest path of {M}")
+        announced.append(k)
+        got = vertex_cloud(to_metres(drawn_plotly(fig, data=fr.data))[0], "mesh3d")
+        want = np.vstack([o._orientation[min(k, len(o._position) - 1)].apply(loc) + o._position[min(k, len(o._position) - 1)]
+                          for o, loc in zip(objs, locs)])
+        if not same_cloud(got, want, 1e-9 * scale):
+            return ("placed-at-pose", f"the animation frame announcing path index {k} does not show the objects at "
+                                      f"path index {k}")
+    if not announced or announced[-1] != M - 1 or announced[0] != 0:
+        return ("frames", f"the animation runs over path indices {announced[:1]}..{announced[-1:]}, the path is 0..{M - 1}")
+    return None
+
+
 MUTATIONS = ["move-top", "rotate-top", "move-child", "setpos-child", "setori-child", "style-frames", "style-color",
              "resize", "remove", "add", "defaults-frames", "defaults-reset", "reset-path", "bad-show", "read"]
 
@@ -2122,6 +2176,7 @@ def search(ctx, big):
                 report(ctx, {**spec, "kind": "orientation"}, res, fn=check_orientation_symbols)
     # 1e. wave 4: many objects / twins / duplicates; animated scenes of mixed path lengths; histories; entry points
     for name, gen, fn, nq, nt in (("many", gen_many, check_many, 2, 12), ("anim-scene", gen_anim_scene, check_anim_scene, 6, 60),
+                                  ("anim-long", gen_anim_long, check_anim_long, 4, 40),
                                   ("history", gen_history, check_history, 14, 200), ("entry", gen_entry, check_entry, 12, 120)):
         for t in range(ctx.n(nq, nt) * mult):
             spec = gen(rng)
@@ -2134,7 +2189,7 @@ def search(ctx, big):
                 for m in spec["mutations"]:
                     ctx.bump("history-op:" + m["op"])
             if res is not None:
-                trig = spec.get("entry") or (",".join(sorted({m["op"] for m in spec["mutations"]})) if name == "history" else spec.get("shape", ""))
+                trig = spec.get("entry") or (",".join(sorted(spec["anim_kw"])) or "default-limits" if name == "anim-long" else None) or (",".join(sorted({m["op"] for m in spec["mutations"]})) if name == "history" else spec.get("shape", ""))
                 ctx.impl_fail(f"{res[0]}/{name}:{trig}", res[1], spec)
     # 2. scenes with collections and nesting
     for t in range(ctx.n(25, 700) * mult):
@@ -2192,7 +2247,7 @@ def search(ctx, big):
 
 
 KIND_OF = {"check_single": "single", "check_mag_arrows": "mag-arrows", "check_orientation_symbols": "orientation"}
-CHECKS = {"many": check_many, "anim-scene": check_anim_scene, "history": check_history, "entry": check_entry,
+CHECKS = {"anim-long": check_anim_long, "many": check_many, "anim-scene": check_anim_scene, "history": check_history, "entry": check_entry,
           "single": check_single, "mag-arrows": check_mag_arrows, "orientation": check_orientation_symbols, "scene": check_scene, "animation": check_animation, "mpl-sliced": check_mpl_sliced}
 
 
